@@ -150,7 +150,7 @@ def build_record(cmds, outs, times):
 
 THR_RULE = ('multi-threaded: 2-4 threads share one connection (after dbus_threads_init_default), each step every thread issues a call '
             'and waits for it by blocking, by notification or by polling, with or without a separate dispatching thread; a scripted raw peer '
-            'answers the calls of a step in ONE write, in random order, after 0-120 ms, or leaves some unanswered (timeouts 300/600 ms); '
+            'answers the calls of a step in ONE write, in random order, after 0-120 ms, or leaves some unanswered (timeouts 300/600 ms), sometimes after an unrelated message that wakes the waiting threads early; answered calls use a 9 s or an infinite timeout; '
             'per call: completed exactly once, at most one notification, its own reply within 4 s of the peer writing it (timeout 9 s), '
             'or the local timeout error at its deadline; serials distinct and non-zero')
 
@@ -163,12 +163,13 @@ def thr_plan(rng):
     disp = 0
     lines = ['T %d D %d S %d' % (nt, disp, ns)]
     for _ in range(ns):
-        lines.append('P %d %d' % (rng.choice([0, 0, 5, 30, 120]), rng.randrange(1 << 30)))
+        noise = int(rng.random() < 0.4)
+        lines.append('P %d %d %d' % (rng.choice([0, 0, 5, 30, 120]) if not noise else rng.choice([30, 120, 400]), rng.randrange(1 << 30), noise))
         silent = rng.random() < 0.25
         for t in range(nt):
             ans = 0 if (silent and rng.random() < 0.5) else 1
             # (without a main loop that runs DBusTimeouts only a blocking wait can time out: unanswered calls block)
-            lines.append('C %s %d %d' % (rng.choice('bbbnp') if ans else 'b', 9000 if ans else rng.choice([300, 600]), ans))
+            lines.append('C %s %d %d' % (rng.choice('bbbnp') if ans else 'b', rng.choice([9000, 9000, 2147483647]) if ans else rng.choice([300, 600]), ans))
     return lines
 
 
